@@ -305,10 +305,10 @@ def transpose(op, input, *args):
 
 @register_qbytestensor_op([torch.ops.aten.t])
 def transpose2d(op, input):
+    out_data = op(input._data)
     if input.ndim < 2:
         # Transposing a 0D or 1D Tensor is a no-op
-        return input
-    out_data = op(input._data)
+        return QBytesTensor(input.qtype, input.axis, input.size(), input.stride(), out_data, input._scale)
     out_scale = input._scale
     out_axis = input.axis
     # Manually reverse size and stride because we cannot trust the out_data shape
